@@ -273,6 +273,9 @@ class UnifiedRTFEncoder(EncodingStrategy):
         parts = [
             self.encoding_service.encode_document_start(),
             self.encoding_service.encode_font_table(),
+            # keep the font table's closing brace on a line of its own, as the table
+            # paths do: assemble_rtf skips the preamble of later inputs line by line
+            "\n",
             self.encoding_service.encode_color_table(document),
             "\n",
             self.encoding_service.encode_page_header(
